@@ -851,8 +851,16 @@ std::vector<double> matterDigest(const Sys& S, const State& s, int stage) {
             if (k == 0 || k == nu - 1) { m.multiplyByMInv(s, e, Mi); push(d, Mi); }
         }
         push(d, s.getQErr());
+        for (const Constraint& c : S.cons) if (!c.isDisabled(s)) push(d, c.getPositionErrorsAsVector(s));
     }
     if (stage >= 6) {
+        for (const Constraint& c : S.cons) if (!c.isDisabled(s)) push(d, c.getVelocityErrorsAsVector(s));
+        if (!S.cons.empty()) {
+            Vector bias, aerr; m.calcBiasForAccelerationConstraints(s, bias); push(d, bias);
+            Vector ud(nu); for (int i = 0; i < nu; ++i) ud[i] = .25 * (i + 1);
+            m.calcConstraintAccelerationErrors(s, ud, aerr); push(d, aerr);
+            Vector bg; m.calcBiasForMultiplyByG(s, bg); push(d, bg);
+        }
         for (MobilizedBodyIndex b(1); b < nb; ++b) {
             const MobilizedBody& mb = m.getMobilizedBody(b);
             pushSV(d, mb.getBodyVelocity(s)); pushSV(d, mb.getMobilizerVelocity(s));
@@ -867,6 +875,11 @@ std::vector<double> matterDigest(const Sys& S, const State& s, int stage) {
     }
     if (stage >= 8) {
         push(d, s.getUDot()); push(d, s.getQDotDot()); push(d, s.getUDotErr());
+        for (const Constraint& c : S.cons) if (!c.isDisabled(s)) {
+            push(d, c.getAccelerationErrorsAsVector(s)); push(d, c.getMultipliersAsVector(s));
+            Vector_<SpatialVec> bf; Vector mf; c.getConstraintForcesAsVectors(s, bf, mf);
+            for (int b = 0; b < bf.size(); ++b) pushSV(d, bf[b]); push(d, mf);
+        }
         for (MobilizedBodyIndex b(1); b < nb; ++b) { pushSV(d, m.getMobilizedBody(b).getBodyAcceleration(s)); pushSV(d, m.getTotalCentrifugalForces(s, b)); }
         // mobilizer reactions (read from the tree acceleration cache), constraint / motion forces, multipliers, system momentum
         Vector_<SpatialVec> reac; m.calcMobilizerReactionForces(s, reac); for (int b = 0; b < reac.size(); ++b) pushSV(d, reac[b]);
@@ -899,9 +912,10 @@ void buildMatterForces(Sys& S, vh::Rng& r) {
     addForce(S, r, K_UniformGravity); addForce(S, r, K_GlobalDamper); addForce(S, r, K_MobConst);
 }
 
-State matterFresh(const MatterSys& M, const Vector& q, const Vector& u, Real t, int stage) {
+State matterFresh(const MatterSys& M, const Vector& q, const Vector& u, Real t, int stage, const State* flagsFrom = nullptr) {
     State f = M.S.sys.getDefaultState();
     if (M.euler) { M.S.matter.setUseEulerAngles(f, true); M.S.sys.realizeModel(f); }
+    if (flagsFrom) for (const Constraint& c : M.S.cons) { if (c.isDisabled(*flagsFrom)) c.disable(f); else c.enable(f); }
     f.setTime(t); f.setQ(q); f.setU(u);
     M.S.sys.realize(f, Stage(stage));
     M.S.matter.realizeCompositeBodyInertias(f); M.S.matter.realizeArticulatedBodyInertias(f);
@@ -940,6 +954,12 @@ struct MatterRun {          // one State and the bookkeeping of its history
         out(M.S, s, "setU %ld", ++tok);
     }
     void realize(int g) { M.S.sys.realize(s, Stage(g)); out(M.S, s, "realize %ld", g); }
+    void toggleConstraint() {
+        if (M.S.cons.empty()) return;
+        const Constraint& c = M.S.cons[r.below((int)M.S.cons.size())];
+        if (c.isDisabled(s)) c.enable(s); else c.disable(s);
+        out(M.S, s, "setInst %ld", ++tok);
+    }
     void invalidate(int g) { s.invalidateAll(Stage(g)); out(M.S, s, "invalAll %ld", g); }
     void askLazy() {          // composite / articulated inertias are only computed on request
         M.S.matter.realizeCompositeBodyInertias(s); out(M.S, s, "mRealize cbi");
@@ -951,10 +971,10 @@ struct MatterRun {          // one State and the bookkeeping of its history
         const int g = std::min((int)s.getSystemStage(), 8);
         askLazy();
         const std::vector<double> a = matterDigest(M.S, s, g);
-        const State f = matterFresh(M, s.getQ(), s.getU(), s.getTime(), g);
+        const State f = matterFresh(M, s.getQ(), s.getU(), s.getTime(), g, &s);
         const std::vector<double> b = matterDigest(M.S, f, g);
         vh::P("sameBitsAsFreshState", "matter.history." + M.type + "." + order + ".bits_equal", bitsDiff(a, b), 0.0);
-        const State o = matterFresh(M, qPrev, uPrev, s.getTime(), g);
+        const State o = matterFresh(M, qPrev, uPrev, s.getTime(), g, &s);
         const bool visible = bitsDiff(matterDigest(M.S, o, g), b) > 0;
         vh::D("matter_class=" + M.type + "." + order + (visible ? "" : ".NO_EFFECT"));
         return visible;
@@ -979,8 +999,10 @@ bool matterOrder(const MatterSys& M, vh::Rng& r, int order) {
         for (int i = 0; i < nops; ++i) {
             const int c = r.below(100);
             if (c < 25) h.changeQ(); else if (c < 40) h.changeU(); else if (c < 75) h.realize(5 + r.below(4));
-            else if (c < 85) h.invalidate(3 + r.below(6)); else h.read();
+            else if (c < 85) h.invalidate(3 + r.below(6)); else if (c < 93 || M.S.cons.empty()) h.read(); else h.toggleConstraint();
         }
+        // end with all constraints enabled (the subject must act), then a last change and realization
+        for (const Constraint& k : M.S.cons) if (k.isDisabled(h.s)) { k.enable(h.s); out(M.S, h.s, "setInst %ld", ++h.tok); }
         if (r.coin()) h.changeQ(); else h.changeU();
         if (r.coin()) h.realize(5 + r.below(2));
         h.realize(5 + r.below(4));
@@ -1121,6 +1143,79 @@ void constOpDirected(vh::Rng& r) {
     vh::P("everyConstOperatorExercised", "matter.history.constop.coverage_floor", missing, 0.0);
 }
 
+// ---------------------------------------------------------------------------------------------------------
+// CONSTRAINT subjects: one small tree (two Free bodies on Ground, a Pin body on the first) with exactly one enabled
+// constraint of the given type, the same order classes on ONE State; keys matter.history.constraint.<Type>.<order> .
+struct Lin2 : public Function {          // f(x, y) = a x + b y + c x y  (coordinate / speed couplers)
+    Lin2(Real a, Real b, Real c) : a(a), b(b), c(c) {}
+    Real calcValue(const Vector& x) const override { return a * x[0] + b * x[1] + c * x[0] * x[1]; }
+    Real calcDerivative(const Array_<int>& d, const Vector& x) const override {
+        if (d.size() == 1) return d[0] == 0 ? a + c * x[1] : b + c * x[0];
+        if (d.size() == 2 && d[0] != d[1]) return c;
+        return 0; }
+    int getArgumentSize() const override { return 2; }
+    int getMaxDerivativeOrder() const override { return 10; }
+    Function* clone() const override { return new Lin2(*this); }
+    Real a, b, c;
+};
+
+enum CType { C_Rod, C_Ball, C_Weld, C_PointInPlane, C_PointOnLine, C_ConstantAngle, C_ConstantOrientation, C_NoSlip1D, C_ConstantSpeed,
+             C_ConstantAcceleration, C_ConstantCoordinate, C_CoordinateCoupler, C_SpeedCoupler, C_PrescribedMotion, C_PointOnPlaneContact,
+             C_SphereOnPlaneContact, C_SphereOnPlaneContactRolling, C_SphereOnSphereContact, C_SphereOnSphereContactRolling,
+             C_LineOnLineContact, C_LineOnLineContactRolling, C_NTYPES };
+const char* const CTYPE_NAMES[C_NTYPES] = { "Rod", "Ball", "Weld", "PointInPlane", "PointOnLine", "ConstantAngle", "ConstantOrientation", "NoSlip1D",
+    "ConstantSpeed", "ConstantAcceleration", "ConstantCoordinate", "CoordinateCoupler", "SpeedCoupler", "PrescribedMotion", "PointOnPlaneContact",
+    "SphereOnPlaneContact", "SphereOnPlaneContact_rolling", "SphereOnSphereContact", "SphereOnSphereContact_rolling", "LineOnLineContact",
+    "LineOnLineContact_rolling" };
+
+Constraint makeConstraint(Sys& S, vh::Rng& r, int t) {
+    MobilizedBody &A = S.bodies[0], &B = S.bodies[1], &C = S.bodies[2];
+    MobilizedBody G = S.matter.Ground();
+    const Transform X1(Rotation(r.range(-1, 1), UnitVec3(rvec(r, .3, 1))), rvec(r, .1, .4)), X2(Rotation(r.range(-1, 1), UnitVec3(rvec(r, .3, 1))), rvec(r, .1, .4));
+    switch (t) {
+    case C_Rod: return Constraint::Rod(A, rvec(r, .1, .4), B, rvec(r, .1, .4), r.range(.8, 2));
+    case C_Ball: return Constraint::Ball(A, rvec(r, .1, .4), B, rvec(r, .1, .4));
+    case C_Weld: return Constraint::Weld(A, X1, B, X2);
+    case C_PointInPlane: return Constraint::PointInPlane(A, UnitVec3(rvec(r, .3, 1)), r.range(-.5, .5), B, rvec(r, .1, .4));
+    case C_PointOnLine: return Constraint::PointOnLine(A, UnitVec3(rvec(r, .3, 1)), rvec(r, .1, .4), B, rvec(r, .1, .4));
+    case C_ConstantAngle: return Constraint::ConstantAngle(A, UnitVec3(rvec(r, .3, 1)), B, UnitVec3(rvec(r, .3, 1)), r.range(.5, 2));
+    case C_ConstantOrientation: return Constraint::ConstantOrientation(A, X1.R(), B, X2.R());
+    case C_NoSlip1D: return Constraint::NoSlip1D(G, rvec(r, .2, 1), UnitVec3(rvec(r, .3, 1)), A, B);
+    case C_ConstantSpeed: return Constraint::ConstantSpeed(A, MobilizerUIndex(r.below(6)), r.range(-1, 1));
+    case C_ConstantAcceleration: return Constraint::ConstantAcceleration(A, MobilizerUIndex(r.below(6)), r.range(-1, 1));
+    case C_ConstantCoordinate: return Constraint::ConstantCoordinate(C, MobilizerQIndex(0), r.range(-1, 1));
+    case C_CoordinateCoupler: return Constraint::CoordinateCoupler(S.matter, new Lin2(r.range(.5, 2), r.range(.5, 2), r.range(.2, 1)),
+        std::vector<MobilizedBodyIndex>{ C.getMobilizedBodyIndex(), S.bodies[3].getMobilizedBodyIndex() }, std::vector<MobilizerQIndex>{ MobilizerQIndex(0), MobilizerQIndex(0) });
+    case C_SpeedCoupler: return Constraint::SpeedCoupler(S.matter, new Lin2(r.range(.5, 2), r.range(.5, 2), r.range(.2, 1)),
+        std::vector<MobilizedBodyIndex>{ A.getMobilizedBodyIndex(), B.getMobilizedBodyIndex() }, std::vector<MobilizerUIndex>{ MobilizerUIndex(r.below(6)), MobilizerUIndex(r.below(6)) });
+    case C_PrescribedMotion: return Constraint::PrescribedMotion(S.matter, new Sin1(r.range(.3, 1), r.range(.5, 2)), C.getMobilizedBodyIndex(), MobilizerQIndex(0));
+    case C_PointOnPlaneContact: return Constraint::PointOnPlaneContact(A, X1, B, rvec(r, .1, .4));
+    case C_SphereOnPlaneContact: case C_SphereOnPlaneContactRolling:
+        return Constraint::SphereOnPlaneContact(A, X1, B, rvec(r, .1, .4), r.range(.2, .6), t == C_SphereOnPlaneContactRolling);
+    case C_SphereOnSphereContact: case C_SphereOnSphereContactRolling:
+        return Constraint::SphereOnSphereContact(A, rvec(r, .1, .4), r.range(.2, .6), B, rvec(r, .1, .4), r.range(.2, .6), t == C_SphereOnSphereContactRolling);
+    default: return Constraint::LineOnLineContact(A, X1, r.range(.5, 1.5), B, X2, r.range(.5, 1.5), t == C_LineOnLineContactRolling);
+    }
+}
+
+void constraintDirected(vh::Rng& r) {
+    int missing = 0;
+    for (int t = 0; t < C_NTYPES; ++t) {
+        MatterSys M; M.type = std::string("constraint.") + CTYPE_NAMES[t];
+        M.euler = r.coin();
+        MobilizedBody a = addMobilizer(M.S, r, M.S.matter.Ground(), M_Free, false);
+        MobilizedBody b = addMobilizer(M.S, r, M.S.matter.Ground(), M_Free, r.coin());
+        MobilizedBody c = addMobilizer(M.S, r, a, M_Pin, false);
+        MobilizedBody d = addMobilizer(M.S, r, b, M_Slider, false);
+        M.S.bodies = { a, b, c, d };
+        buildMatterForces(M.S, r);
+        M.S.cons.push_back(makeConstraint(M.S, r, t));
+        M.S.sys.realizeTopology();
+        for (int o = 0; o < N_MATTER_ORDERS; ++o) if (!matterOrder(M, r, o) && o != 7) ++missing;
+    }
+    vh::P("everyMatterClassExercised", "matter.history.constraint.coverage_floor", missing, 0.0);
+}
+
 // random tree from the full palette, random history
 void matterRandomCase(vh::Rng& r) {
     MatterSys M; M.type = "mixed"; M.euler = r.coin();
@@ -1149,6 +1244,7 @@ int main(int argc, char** argv) {
         directedCases(r);
         matterDirected(r);
         constOpDirected(r);
+        constraintDirected(r);
         for (long i = 0; i < args.n; ++i) { if (i % 3 == 2) richCase(r); else if (i % 6 == 1) { if (i % 12 == 1) matterRandomCase(r); else constOpCase(r, -1); } else randomCase(r); }
     } catch (const std::exception& e) {
         std::fprintf(stderr, "C16 harness: exception %s\n", e.what());
